@@ -2,7 +2,7 @@
 (* T-mode for relational properties: reads composite events recorded from the REAL code (vh events) and
    evaluates the property's relation on the observed values.  Every event is independent; a verdict other
    than "ok" is collected with the index of the event; bin/check turns it into a replay file. *)
-EXTENDS Canon, Json
+EXTENDS Canon, Diagnostics, Json
 CONSTANT TraceFile
 Trace == ndJsonDeserialize(TraceFile)
 VARIABLES l, bad
@@ -34,6 +34,8 @@ CheckLaw(e) ==
     <<"reading the base's SearchParams first changes the base or the result of a resolution",
         u.fail \/ (/\ SameRes(e.tbase, u) /\ SameRes(e.tempty, e.empty) /\ SameRes(e.thash, e.hash) /\ SameRes(e.tquery, e.query)
                    /\ Len(e.trel) = Len(e.rel) /\ \A i \in 1..Len(e.rel) : SameRes(e.trel[i], e.rel[i]))>>,
+    <<"a resolution changed its base value, or the empty reference resolves differently after other references were resolved against the same base value",
+        u.fail \/ (SameRes(e.after, u) /\ SameRes(e.empty2, e.empty))>>,
     <<"opaque-base accepted a relative reference other than '#...'",
         u.fail \/ ~u.g.opaque \/ \A i \in 1..Len(e.rel) : e.rel[i].fail \/ (e.relref[i] # <<>> /\ e.relref[i][1] = 35)>>
   >>)
@@ -55,7 +57,14 @@ CheckDiag(e) ==
     <<"same input, different error type with and without reporting", ~e.d.fail \/ ~e.r.fail \/ e.d.err = e.r.err>>,
     <<"an entry recorded on a successfully parsed URL is marked fatal", e.r.fail \/ \A i \in 1..Len(e.r.ve) : ~e.r.ve[i].fail>>,
     <<"recorded entry has an undocumented type", e.r.fail \/ \A i \in 1..Len(e.r.ve) : e.r.ve[i].type \in DocumentedErrors>>,
-    <<"default / fail-on-VE parser recorded entries although reporting is off", (e.d.fail \/ e.d.ve = <<>>) /\ (e.f.fail \/ e.f.ve = <<>>)>>
+    <<"default / fail-on-VE parser recorded entries although reporting is off", (e.d.fail \/ e.d.ve = <<>>) /\ (e.f.fail \/ e.f.ve = <<>>)>>,
+    \* information only (no listed property demands the standard's inventory; the orchestrator counts "note:" tags, they are never a verdict)
+    <<"note: the validation-error types recorded by the reporting parser differ from the standard's inventory (Diagnostics!VeOf)",
+        LET base == IF e.bs = <<>> THEN None ELSE Some(Parse(e.bs[1], None, None).u)
+            inv == IF e.bs # <<>> /\ Parse(e.bs[1], None, None).res # "ok" THEN <<FALSE, <<>>>> ELSE VeOf(e.in, base, DefaultOpts)
+        IN \/ ~inv[1]
+           \/ (e.r.fail /\ inv[2] # <<>> /\ Last(inv[2]) = e.r.err)        \* a failed parse exposes only the fatal error: it is the last one raised
+           \/ (~e.r.fail /\ TypeSet(inv[2]) = {e.r.ve[i].type : i \in 1..Len(e.r.ve)})>>
   >>)
 
 (* ---------------- C14: write sets of read-only calls (spec/ConcProg.tla, strict programs) ---------------- *)
